@@ -1,5 +1,5 @@
 """Registry: property id -> check function(prop, tier, verdict) -> (level, coverage, assumptions)."""
-import eng_sess, eng_hub, eng_disp
+import eng_sess, eng_hub, eng_disp, eng_corr
 
 SESS_ASSUME = [
     'the in-memory connection of the harness behaves like a reliable byte stream (delivered bytes stay readable after the peer closes; writes fail after a close)',
@@ -31,7 +31,13 @@ def c_disp(prop, tier, verdict):
     cov, _ = eng_disp.run(prop, tier, verdict)
     return 'model_checking', cov, DISP_ASSUME
 
+def c01(prop, tier, verdict):
+    cov, _ = eng_corr.run(prop, tier, verdict)
+    return 'exploration', cov, ['protocols raw, json, pb, thrift-binary; codecs json, xml, form, plain, protobuf; pipes over gzip and md5; http / websocket / thrift-struct protocols are not in the workload driver',
+                                'schedules are those the Go scheduler produces under the load profiles (sampled, not enumerated)']
+
 CHECKS = {
+    'C01': c01,
     'C02': c02,
     'C08': c02,
     'C07': c07,
